@@ -214,7 +214,20 @@ def r2(ctx, cls, wk):
   s = prog.func(Z, 'ServerSet._safe_zk_node_to_member')
   hs = [h for n in ast.walk(s.node) if isinstance(n, ast.Try) for h in n.handlers]
   ok = any(h.type is not None and U(h.type).endswith('NoNodeError') and any(isinstance(x, ast.Return) and U(x.value) == 'None' for x in h.body) for h in hs)
-  ctx.ob('C19.R2', s, 'member vanished between listing and reading is skipped', ok and 'if m' in U(z.node), 'NoNodeError handling changed',
+  def _drops_none(fn):
+    for n_ in ast.walk(fn):
+      if isinstance(n_, ast.comprehension) and isinstance(n_.target, ast.Name):
+        for c_ in n_.ifs:
+          if U(c_).replace(' ', '') in (n_.target.id, '%sisnotNone' % n_.target.id):
+            return True
+      if isinstance(n_, ast.Call) and isinstance(n_.func, ast.Name) and n_.func.id == 'filter' and len(n_.args) == 2 and isinstance(n_.args[0], ast.Constant) and n_.args[0].value is None:
+        return True
+      if isinstance(n_, ast.For) and isinstance(n_.target, ast.Name):
+        for st_ in n_.body:
+          if isinstance(st_, ast.If) and U(st_.test).replace(' ', '') in (n_.target.id, '%sisnotNone' % n_.target.id, 'not' + n_.target.id, '%sisNone' % n_.target.id):
+            return True
+    return False
+  ctx.ob('C19.R2', s, 'member vanished between listing and reading is skipped', ok and _drops_none(z.node), 'NoNodeError handling changed',
          'members vanishing mid-read must be skipped, not abort the batch')
   sp = [c for c in ast.walk(cls.methods['__init__'].node) if isinstance(c, ast.Call) and call_name(c) == 'gevent.spawn' and U(c.args[0]) == 'self._notification_worker']
   ctx.ob('C19.R2', cls, 'exactly one notification worker is started', len(sp) == 1 and not [
@@ -326,6 +339,8 @@ def r5(ctx, cls):
       calls = ['_begin_watch' if (c == 'ChildrenWatch' and any(e.kind == 'call' and isinstance(e.node.func, ast.Name) and e.node.func.id == 'ChildrenWatch'
                                                                and [U(a) for a in e.node.args][:2] == ['self._zk', 'self._zk_path'] for e in ev)) else c for c in calls]
     writes = [(U(e.node.targets[0]), U(e.node.value)) for e in ev if e.kind == 'stmt' and isinstance(e.node, ast.Assign)]
+    # a boolean written as the test itself (`self._watching = stat is not None`) has the value the path facts give that test
+    writes = [(t_, 'True' if (v_.replace(' ', ''), True) in fs else 'False' if (v_.replace(' ', ''), False) in fs else v_) if v_ not in ('True', 'False') else (t_, v_) for t_, v_ in writes]
     if ('%sisNone' % stat, True) in fs:
       seen['deleted'] = '_send_all_removed' in calls and ('self._watching', 'False') in writes and '_begin_watch' not in calls
     elif ('notself._watching', True) in fs or ('self._watching', False) in fs:
